@@ -302,14 +302,14 @@ theorem skipSpaces_bp (W : WFSegs src segs) (hnb : NB → NoBlank src segs) {r :
       · exact absurd q hv
       · exact q3 hN hb
 
-theorem findClosure_bp (W : WFSegs src segs) {r : BlockReader} {c : BCur} (h : BP src segs r c) (o cl : UInt8) :
+theorem findClosure_bp (W : WFSegs src segs) {r : BlockReader} {c : BCur} (h : BP src segs r c) (o cl : UInt8) (hcl : cl ≠ 32) :
     ∃ x r' c', findClosure blockOps (rdFuel r) o cl linkFindClosureOptions r = .ok (x, r') ∧ BP src segs r' c' ∧
       c.ln ≤ c'.ln ∧ c.p ≤ c'.p ∧ (x.2 = true → c'.ln < BCur.k segs) ∧
       (∀ s ∈ x.1.getD [], c.p ≤ s.start ∧ s.start ≤ s.stop) := by
   have F := segFacts W
   obtain ⟨x, c', e, _⟩ := bcur_findClosure_ok (src := src) F o cl linkFindClosureOptions (rdFuel r) h.abs.wf (rdFuel_gt_pad W h)
   obtain ⟨w', pd', j1, j2⟩ := findClosure_J F (J_self h.abs.wf h.pad) e
-  obtain ⟨f1, f2⟩ := findClosure_facts F o cl (rdFuel r) h.abs.wf e
+  obtain ⟨f1, f2⟩ := findClosure_facts F o cl hcl (rdFuel r) h.abs.wf e
   obtain ⟨r', e', a'⟩ := findClosure_sim (blockSim F) (rdFuel r) o cl linkFindClosureOptions h.abs e
   exact ⟨x, r', c', e', ⟨a', pd'⟩, j1, j2, f1, f2⟩
 
